@@ -138,6 +138,11 @@ func (h *NFSProcedureHandler) handleWrite(body io.Reader, reply *RPCReply, authC
 		return nfsErrorWithWcc(reply, NFSERR_INVAL), nil
 	}
 
+	// PolicyOptions.MaxFileSize: a write may not end beyond it
+	if h.server.handler.exceedsMaxFileSize(offset + uint64(count)) {
+		return nfsErrorWithWcc(reply, NFSERR_FBIG), nil
+	}
+
 	data := make([]byte, count)
 	if _, err := io.ReadFull(body, data); err != nil {
 		return nfsErrorWithWcc(reply, GARBAGE_ARGS), nil
